@@ -49,6 +49,7 @@ type c10sStream struct {
 	excess     bool // an out-of-window DATA frame was sent on it
 	overCL     bool // more DATA than the declared content-length was sent
 	irregular  bool // DATA was sent on it after END_STREAM / a reset: stream-level accounting is undefined
+	endIgnored bool // END_STREAM was sent with payload after the handler closed the body: the server drops that frame's END_STREAM flag, the two sides disagree about the stream state
 	delivered  int  // bytes handler Reads returned so far (checked against the pattern)
 }
 
@@ -83,6 +84,7 @@ type c10mStream struct {
 	handler  int  // 0 none, 1 idle, 2 blocked in Read, 3 returned
 	buffered int64
 	closed   bool // body closed by handler
+	quirk    bool // END_STREAM sent with payload after the body was closed (flag dropped by the server)
 	pipeErr  bool // body pipe has a terminal error (EOF or reset)
 	cl, recv int64
 	view     int64 // client view of the stream window
@@ -179,7 +181,7 @@ func (m *c10Model) enabled(ev c08srvEv, enforce bool) bool {
 		return !m.s[1].opened && m.goaway != 2
 	case "D":
 		s := idx()
-		if !s.opened {
+		if !s.opened || s.quirk {
 			return false
 		}
 		fl := c10FlowLen(ev.arg(1), ev.arg(2))
@@ -264,6 +266,9 @@ func (m *c10Model) apply(ev c08srvEv) {
 		s.avail -= fl
 		if s.closed && ln > 0 {
 			m.connAdd(fl)
+			if end {
+				s.quirk, s.cliOpen = true, false
+			}
 			return
 		}
 		s.recv += ln
@@ -393,7 +398,7 @@ func c10srvRunCase(w *vx.W, t testing.TB, cs c08srvCase, mode c10sMode) (res c10
 				}
 			} else if s := mon.streams[f.Stream]; s != nil {
 				s.view += int64(f.Inc)
-				if mode.leak && s.view > mon.cfgStr {
+				if mode.leak && s.view > mon.cfgStr && !s.irregular && !s.endIgnored {
 					w.Failf(P+"window-update/stream-window-above-configured/after-"+mon.lastKind, "%s: %v raises the client's view of the stream receive window to %d > configured %d", ctx, f, s.view, mon.cfgStr)
 				}
 			}
@@ -576,7 +581,7 @@ func c10srvRunCase(w *vx.W, t testing.TB, cs c08srvCase, mode c10sMode) (res c10
 				kind = "H-after-goaway"
 			}
 		case "D", "DR":
-			if s == nil {
+			if s == nil || s.endIgnored {
 				applied = false
 				break
 			}
@@ -657,6 +662,9 @@ func c10srvRunCase(w *vx.W, t testing.TB, cs c08srvCase, mode c10sMode) (res c10
 			}
 			env.writeErr(werr)
 			if end {
+				if s.clientOpen() && s.bodyClosed && ln > 0 {
+					s.endIgnored = true
+				}
 				s.cliEnded = true
 			}
 		case "R", "C", "DONE", "P":
